@@ -61,6 +61,10 @@ import (
 	"github.com/lightninglabs/neutrino/query"
 )
 
+// time a kept connection to a banned address is given to go away before it
+// is recorded (normal: < 5 ms; vfeUntil extends it while the machine is starved)
+const vpsSettle = 500 * time.Millisecond
+
 type vpsObs struct {
 	Ban  [][]int `json:"ban"`
 	Ad   [][]int `json:"ad"`
@@ -1172,7 +1176,7 @@ func vpsRunOnce(p vpsPathIn, scratch string, seed int64) (out vpsPathOut) {
 		// a connection to a banned address that is still kept gets extra
 		// time to go away before it is recorded (once per such set)
 		if kb := o.keptBanned(); kb != "" && kb != e.waited {
-			vfeUntil(vfeSettle, func() bool {
+			vfeUntil(vpsSettle, func() bool {
 				o = e.observe()
 				return o.keptBanned() == ""
 			})
